@@ -112,6 +112,14 @@ def replay_verbs(inputs, obl):
                 if y != 0:
                     q = abs(x) // abs(y)
                     grid.append((f"{lit(x)}:%{lit(y)}", q if (x >= 0) == (y > 0) else -q))
+        # the verb is atomic: through lists and nesting, with atom-to-list extension - the integer part of each quotient (toward zero)
+        tq = lambda x, y: (abs(x) // abs(y)) * (1 if (x >= 0) == (y > 0) else -1)
+        for xs in ([7, -7], [-9, 9, 4], [7, -7, 0, 1]):
+            for y in (2, -2, 3):
+                grid.append((f"{lit(xs)}:%{lit(y)}", [tq(x, y) for x in xs]))
+                grid.append((f"{lit(y * 5)}:%{lit(xs if 0 not in xs else [7, -7])}", [tq(y * 5, x) for x in (xs if 0 not in xs else [7, -7])]))
+        grid.append(("[7 [-7 9]]:%2", [3, [-3, 4]]))
+        grid.append(("[[7 -7] [-9 9]]:%[[2 2] [2 -2]]", [[3, -3], [-4, -4]]))
     if tok is None or 'remainder' in obl:
         # Remainder keeps the sign of the dividend, exactly - also beyond 2**53, where a detour through reals loses digits
         big = [9007199254740993, 1000000000000000007, -1000000000000000011, 4611686018427387905, 2 ** 53 + 1, -(2 ** 53) - 1]
